@@ -182,6 +182,14 @@ impl Run {
     fn exec(&mut self, tok: &str, wait: Duration) -> bool {
         dbg(|| format!("exec {tok}"));
         if let Some(kind) = Kind::parse(tok) {
+            // a new handler is polled only once the running one has yielded: run that one up to its next
+            // `.await` (or its end) first
+            while let Some(m) = self.midrun {
+                let t = self.tid(m);
+                if self.at_point(t).is_none() { break; }
+                self.sched.push(format!("h{m}"));
+                self.pass(t, m);
+            }
             if self.midrun.is_some() { return false; }
             let k = self.spawn(kind);
             self.sched.push(tok.to_string());
